@@ -68,8 +68,11 @@ def propagator(V):
                 'v': {'u0': a[1, 0], 'v0': a[1, 1], 'f0': T.sneg(b[1, 0]), 'f1': T.sneg(b[1, 1])}}
         for nm, (u0, v0, f0, f1) in units.items():
             su, sv = closed_form(xi, w, h, Q(u0), Q(v0), Q(f0), Q(f1), E, Sn, Cs, Rt)
-            out.prove('displacement-row-coefficient-of-%s-is-exact' % nm, T.seq(code['u'][nm], z3.simplify(su)), atomize=True)
-            out.prove('velocity-row-coefficient-of-%s-is-exact' % nm, T.seq(code['v'][nm], z3.simplify(sv)), atomize=True)
+            # polynomial identities: proved from the few facts they need (ranges, sqrt(1-xi^2)^2 = 1-xi^2 > 0) with every
+            # transcendental application generalised to an atom -- keeps the nonlinear query small and its time stable
+            few = [T.sge(xi, 0), T.slt(xi, 1), T.sgt(w, 0), T.sgt(h, 0), T.sgt(Rt, 0), T.seq(T.smul(Rt, Rt), T.ssub(1, T.smul(xi, xi)))]
+            out.prove_from('displacement-row-coefficient-of-%s-is-exact' % nm, few, T.seq(code['u'][nm], z3.simplify(su)), kind='ensures', atomize=True)
+            out.prove_from('velocity-row-coefficient-of-%s-is-exact' % nm, few, T.seq(code['v'][nm], z3.simplify(sv)), kind='ensures', atomize=True)
     # Rt > 0 is a consequence of the sqrt identity (separate tiny obligation so that the assumption above is discharged)
     for out in V.symbolic(lambda: dict()):
         xi = V.real('xi')
@@ -187,8 +190,8 @@ def nj_postconditions(V, out, st, lead_zero, res):
         out.prove('zero-initial-displacement-and-velocity', T.sand(T.seq(U[r, 0], 0), T.seq(Vv[r, 0], 0)))
         for j in V.idx(0, T.ssub(n, 1), 'j'):
             args = [T.to_real(x) for x in (xi, w_r, dt, U[r, j], Vv[r, j], acc[j], acc[T.sadd(j, 1)])]
-            out.prove('displacement-advances-by-the-exact-one-step-solution', T.seq(U[r, T.sadd(j, 1)], STEP_U(*args)), hints=[STEP_U(*args), STEP_V(*args)])
-            out.prove('velocity-advances-by-the-exact-one-step-solution', T.seq(Vv[r, T.sadd(j, 1)], STEP_V(*args)), hints=[STEP_U(*args), STEP_V(*args)])
+            out.prove('displacement-advances-by-the-exact-one-step-solution', T.seq(U[r, T.sadd(j, 1)], STEP_U(*args)), hints=[STEP_U(*args), STEP_V(*args)], inst=[r, j])
+            out.prove('velocity-advances-by-the-exact-one-step-solution', T.seq(Vv[r, T.sadd(j, 1)], STEP_V(*args)), hints=[STEP_U(*args), STEP_V(*args)], inst=[r, j])
         for j in V.idx(0, n, 'j2'):
             want = T.sneg(T.sadd(T.smul(T.smul(T.smul(2, xi), w_r), Vv[r, j]), T.smul(T.smul(w_r, w_r), U[r, j])))
             out.prove('third-series-is-minus(2 xi w v + w^2 u)', T.seq(Aa[r, j], want))
